@@ -82,7 +82,9 @@ const (
 	ordGT
 )
 
-func (o ordering) String() string { return [...]string{"index < bound", "index == bound", "index > bound"}[o] }
+func (o ordering) String() string {
+	return [...]string{"index < bound", "index == bound", "index > bound"}[o]
+}
 
 // cmpTruth evaluates `x op y` when (x,y) is ordered by o.
 func cmpTruth(op token.Token, o ordering) (bool, bool) {
